@@ -291,3 +291,39 @@ func VerifC15_PipelineConc() {
 	cancel()
 	verifReach("pipeline-conc")
 }
+
+// VerifC15_Consolidator: the real MetricConsolidator alone, sequentially: epochs of 0..2
+// dispatches (each lands in whichever slot is free) separated by flushes into a harness sink.
+// The slices handed to the sink are examined only at the end: each must hold exactly what was
+// dispatched in its epoch - a later dispatch must not show up in (alias) an earlier flush, and
+// nothing may be missing.
+func VerifC15_Consolidator() {
+	slots := nondetIntIn(1, 3)
+	sink := make(chan []*gostatsd.MetricMap, 3)
+	mc := gostatsd.NewMetricConsolidator(slots, false, time.Hour, sink)
+	var want [3]int64
+	var got [3][]*gostatsd.MetricMap
+	for e := 0; e < 3; e++ {
+		n := nondetIntIn(0, 2)
+		for j := 0; j < n; j++ {
+			v := int64(nondetIntIn(1, 9))
+			mm := gostatsd.NewMetricMap(false)
+			mm.Counters["c"] = map[string]gostatsd.Counter{"": {Value: v}}
+			mc.ReceiveMetricMap(mm)
+			want[e] += v
+		}
+		mc.Flush()
+		got[e] = <-sink
+	}
+	for e := 0; e < 3; e++ {
+		verifAssert(len(got[e]) == slots, "a flush hands over one map per slot")
+		var t int64
+		for _, m := range got[e] {
+			for _, c := range m.Counters["c"] {
+				t += c.Value
+			}
+		}
+		verifAssert(t == want[e], "a flushed slice holds exactly the datapoints dispatched since the previous flush (also when looked at later)")
+	}
+	verifReach("consolidated")
+}
